@@ -27,6 +27,7 @@ type c08Case struct {
 	G         int    `json:"g"`
 	K         int    `json:"k"`
 	SizeClass int    `json:"size_class"` // 0 small, 1 mixed, 2 large (up to 64 KB)
+	Spice     string `json:"spice"`      // text put into every payload (format verbs, escapes, template syntax, non-ASCII); XML-safe as it is also used raw
 	AfterDisc bool   `json:"after_disconnect"`
 }
 
@@ -40,6 +41,7 @@ func genC08(t *rapid.T) c08Case {
 		Logger:    rapid.IntRange(0, 2).Draw(t, "logger") == 0,
 		AfterDisc: rapid.IntRange(0, 3).Draw(t, "afterDisc") == 0,
 	}
+	c.Spice = rapid.SampledFrom(c08Spices).Draw(t, "spice")
 	if c.Entity == "client" {
 		c.Transport = rapid.SampledFrom([]string{"tcp", "tcp", "tls", "ws"}).Draw(t, "transport")
 		c.SM = rapid.Bool().Draw(t, "sm")
@@ -49,6 +51,9 @@ func genC08(t *rapid.T) c08Case {
 	}
 	return c
 }
+
+// text that a careless write path could interpret: printf verbs, escapes, template and shell syntax, non-ASCII
+var c08Spices = []string{"", "", "100% sure %s %d %v %n %% %!", "back\\slash \\n \\x00 \\", "${HOME} $(id) {{.}} {0}", "é ü 中 🙂 \u200b", "%", "%%%", "tab\there", "'single' \"double\""}
 
 // c08Payload builds the i-th send of goroutine g: returns kind, the packet (Send / SendIQ) or raw string, and the expected wire bytes.
 func c08Payload(c c08Case, g, k int) (kind string, pkt stanza.Packet, raw string, want string) {
@@ -63,7 +68,7 @@ func c08Payload(c c08Case, g, k int) (kind string, pkt stanza.Packet, raw string
 	if c.Transport == "ws" && size > 30000 {
 		size = 30000 // the WebSocket peer and transport limit messages to 32 KB
 	}
-	body := strings.Repeat(string(rune('a'+(g%26))), size)
+	body := strings.Repeat(string(rune('a'+(g%26))), size) + c.Spice
 	switch (g + 2*k) % 4 {
 	case 0, 1:
 		m := stanza.NewMessage(stanza.Attrs{To: "a@localhost", Id: id, Type: stanza.MessageTypeChat})
@@ -388,7 +393,7 @@ func runC08(c c08Case) vh.Result {
 
 var c08 = vh.Define(&vh.Def[c08Case]{
 	Property: "C08", Name: "send",
-	Rule: "G in 1-16 goroutines x K in 1-50 sends each of Send(message) / SendRaw(string) / SendIQ(iq) with unique ids and payloads of 10 B - 64 KB (30 KB over WebSocket) x {client over TCP, TLS, WebSocket; component over TCP} x stream management on/off x traffic logger on/off, optionally followed by Disconnect and two more sends; the scripted peer records every element with its exact bytes; oracle: every send that returned nil arrived exactly once with exactly the bytes of xml.Marshal(packet) / the raw string, nothing else arrived, nothing unparsable arrived, no send failed on a healthy connection, with SM every accepted stanza is held exactly once, sends after Disconnect return an error and do not panic; non-trivial = G >= 2 and K >= 5, or the after-Disconnect step",
+	Rule: "G in 1-16 goroutines x K in 1-50 sends each of Send(message) / SendRaw(string) / SendIQ(iq) with unique ids and payloads of 10 B - 64 KB (30 KB over WebSocket) carrying a generated 'spice' text (printf verbs, backslash escapes, template / shell syntax, quotes, non-ASCII) x {client over TCP, TLS, WebSocket; component over TCP} x stream management on/off x traffic logger on/off, optionally followed by Disconnect and two more sends; the scripted peer records every element with its exact bytes; oracle: every send that returned nil arrived exactly once with exactly the bytes of xml.Marshal(packet) / the raw string, nothing else arrived, nothing unparsable arrived, no send failed on a healthy connection, with SM every accepted stanza is held exactly once, sends after Disconnect return an error and do not panic; non-trivial = G >= 2 and K >= 5, or the after-Disconnect step",
 	Quick: 120, Thorough: 4000, Journal: true,
 	Gen: genC08, Run: runC08,
 })
@@ -402,6 +407,7 @@ type c08FaultCase struct {
 	Entity string `json:"entity"`
 	FailAt []int  `json:"fail_at"` // 0-based indices of Write calls that fail
 	N      int    `json:"n"`
+	Spice  string `json:"spice"`
 	Short  bool   `json:"short"` // failing writes report a short count instead of an error... with an error
 }
 
@@ -430,7 +436,7 @@ func (f *faultTransport) Write(p []byte) (int, error) {
 }
 
 func genC08Fault(t *rapid.T) c08FaultCase {
-	c := c08FaultCase{Entity: rapid.SampledFrom([]string{"client", "component"}).Draw(t, "entity"), N: rapid.IntRange(1, 12).Draw(t, "n"), Short: rapid.Bool().Draw(t, "short")}
+	c := c08FaultCase{Entity: rapid.SampledFrom([]string{"client", "component"}).Draw(t, "entity"), N: rapid.IntRange(1, 12).Draw(t, "n"), Short: rapid.Bool().Draw(t, "short"), Spice: rapid.SampledFrom(c08Spices).Draw(t, "spice")}
 	k := rapid.IntRange(1, 4).Draw(t, "nfail")
 	for i := 0; i < k; i++ {
 		c.FailAt = append(c.FailAt, rapid.IntRange(0, c.N-1).Draw(t, "failAt"))
@@ -460,7 +466,7 @@ func runC08Fault(c c08FaultCase) vh.Result {
 		sender = comp
 	}
 	for i := 0; i < c.N; i++ {
-		kind, pkt, raw, want := c08Payload(c08Case{}, i, i)
+		kind, pkt, raw, want := c08Payload(c08Case{Spice: c.Spice}, i, i)
 		var err error
 		switch kind {
 		case "send":
